@@ -108,6 +108,14 @@ def step (s : St) (ws : List String) : St × String :=
       if txs.length ≠ n then (s, "bad-op") else
       (s, walkStr (isRepeatAPI s.index s.W v s.fuel p now txs))
     | _, _, _, _, _ => (s, "bad-op")
+  | "build" :: par :: now :: n :: rest =>
+    match par.toNat? >>= s.block?, now.toInt?, n.toNat?, parseTxs rest, s.vw with
+    | some p, some now, some n, some txs, some v =>
+      if txs.length ≠ n then (s, "bad-op") else
+      match builderSelect s.index s.W v s.fuel p now txs with
+      | some sel => (s, "built " ++ natList (sortNat (sel.map (·.id))))
+      | none => (s, "built-none")
+    | _, _, _, _, _ => (s, "bad-op")
   | _ => (s, "bad-op")
 
 def machine : Machine := { σ := St, init := {}, step := step }
